@@ -86,6 +86,10 @@ pub struct Ctx {
     pub holding: Vec<AtomicBool>,
     pub active: AtomicUsize,
     pub seq_inner: AtomicBool,
+    /// custom batch controllers wrap every inner dispatch in `catch_unwind` and carry on
+    pub ctl_catch: AtomicBool,
+    /// number of panics such controllers caught
+    pub ctl_caught: AtomicU32,
     pub ident: Mutex<Vec<Vec<usize>>>,
     pub shapes: Mutex<std::collections::BTreeMap<usize, (Vec<Vec<usize>>, usize)>>,
     pub cond: Conductor,
@@ -169,6 +173,8 @@ impl Ctx {
             holding: av(n, || AtomicBool::new(false)),
             active: AtomicUsize::new(0),
             seq_inner: AtomicBool::new(false),
+            ctl_catch: AtomicBool::new(false),
+            ctl_caught: AtomicU32::new(0),
             ident: Mutex::new(vec![vec![]; nb]),
             shapes: Mutex::new(Default::default()),
             cond: Conductor::new(),
@@ -254,6 +260,10 @@ impl Ctx {
         if self.fault_due(idx, point) {
             // open every gate first: siblings must not wait for a system that will never finish
             self.cond.release_all();
+            if self.ctl_catch.load(SeqCst) {
+                // the dispatch goes on after this panic (a controller catches it): one shot
+                self.fault[idx].store(FAULT_NONE, SeqCst);
+            }
             std::panic::panic_any(HarnessFault(idx));
         }
     }
@@ -625,14 +635,24 @@ impl<'a, 'b, 'c, F: Fam> BatchController<'a, 'b, 'c> for CustomCtl<F> {
         }
         for _ in 0..self.n {
             ctx.inner_dispatches[idx].fetch_add(1, SeqCst);
-            if ctx.seq_inner.load(SeqCst) {
-                dispatcher.dispatch_seq(world);
-                dispatcher.dispatch_thread_local(world);
-            } else if idx % 2 == 1 {
-                // the trait-object entry point of the inner dispatcher
-                shred::RunNow::run_now(dispatcher, world);
+            let mut one = || {
+                if ctx.seq_inner.load(SeqCst) {
+                    dispatcher.dispatch_seq(world);
+                    dispatcher.dispatch_thread_local(world);
+                } else if idx % 2 == 1 {
+                    // the trait-object entry point of the inner dispatcher
+                    shred::RunNow::run_now(dispatcher, world);
+                } else {
+                    dispatcher.dispatch(world);
+                }
+            };
+            if ctx.ctl_catch.load(SeqCst) {
+                // a controller that contains the panics of its inner dispatches and carries on
+                if std::panic::catch_unwind(std::panic::AssertUnwindSafe(&mut one)).is_err() {
+                    ctx.ctl_caught.fetch_add(1, SeqCst);
+                }
             } else {
-                dispatcher.dispatch(world);
+                one();
             }
         }
         Ctx::spin(ctx.jitter_run[idx].load(SeqCst));
